@@ -22,6 +22,9 @@ pub struct Gen<'a, 't> {
     /// remaining statement budget
     pub stmt_budget: usize,
     pub max_depth: usize,
+    /// write the character a '$' escape denotes instead of the escape itself (the other faithful
+    /// reading of a string; same tape consumption)
+    pub decode_escapes: bool,
 }
 
 const INT_TYPES: [ElementaryTypeName; 8] = [
@@ -75,7 +78,7 @@ pub fn sint(v: u128, neg: bool) -> SignedInteger {
 
 impl<'a, 't> Gen<'a, 't> {
     pub fn new(g: &'a Gates, t: Tape<'t>) -> Self {
-        Gen { t, g, names: Names::new(), stmt_budget: 30, max_depth: 4 }
+        Gen { t, g, names: Names::new(), stmt_budget: 30, max_depth: 4, decode_escapes: false }
     }
 
     fn fresh(&mut self) -> Id {
@@ -164,10 +167,26 @@ impl<'a, 't> Gen<'a, 't> {
             if self.t.ratio(1, 7) && self.g.want("STRING_DOLLAR_ESCAPES_IN_PROGRAMS") {
                 // a '$' escape, kept verbatim (the parser keeps the text between the quotes); not
                 // used by C01 itself, which would have to decide between raw and decoded
-                v.push('$');
+                let dec = self.decode_escapes;
+                if !dec {
+                    v.push('$');
+                }
                 match self.t.below(5) {
                     0 => v.push('$'),
-                    1 => v.push(*self.t.pick(&['N', 'n', 'R', 'T', 'L', 'P'])),
+                    1 => {
+                        let c = *self.t.pick(&['N', 'n', 'R', 'T', 'L', 'P']);
+                        v.push(if !dec {
+                            c
+                        } else {
+                            match c {
+                                'N' | 'n' | 'L' => '\n',
+                                'R' => '\r',
+                                'T' => '\t',
+                                _ => '\u{c}',
+                            }
+                        })
+                    }
+                    2 if dec => v.push('A'),
                     2 => v.extend(['4', '1']),
                     3 => v.push('\''),
                     _ => v.push('"'),
